@@ -15,6 +15,10 @@
 //     the thorough tier runs them.
 //   - nested value JSON ([[[…]]], {"a":{"a":…}}) is explored to depth 3 000 and again beyond encoding/json's own 10 000 limit:
 //     decoding is quadratic in depth with a large constant (10^4 levels = 20 KB take 10-90 s), which is slowness, not a violation.
+//   - memory exhaustion is not judged: a child that is killed by SIGKILL without a Go crash report (OOM killer) or dies
+//     with "out of memory" is recorded as inconclusive. The one construct known to get there, Schema.MarshalCedar on
+//     deeply nested record types (output quadratic in depth: 400 KB of schema text => 10 GB of output), is capped at
+//     depth 10 000 for the encoders.
 //   - inputs larger than 1 MiB are not explored.
 //   - acceptance by a decoder is not judged (C07-C09, C13, C17 do that); only "returns a value or an error".
 //
@@ -47,6 +51,7 @@ import (
 	"strings"
 	"sync"
 	"sync/atomic"
+	"syscall"
 	"testing"
 	"time"
 	"unicode/utf8"
@@ -1038,6 +1043,9 @@ type childResult struct {
 	lastStage string
 	head      string // first lines of the crash report
 	overflow  bool
+	// resources: the child was killed from outside (SIGKILL without any Go crash report: the kernel's OOM killer) or Go
+	// itself gave up allocating; memory exhaustion is not part of the invariant this check judges (see carve-outs)
+	resources bool
 	elapsed   time.Duration
 }
 
@@ -1065,7 +1073,9 @@ func runInChild(c *Case, timeout time.Duration) childResult {
 	defer os.Remove(caseFile)
 	defer os.Remove(outFile)
 	cmd := exec.Command(os.Args[0], "-test.run", "^TestChild$", "-test.count", "1", "-test.timeout", "0")
-	cmd.Env = append(os.Environ(), "C10_CHILD_CASE="+caseFile, "C10_CHILD_OUT="+outFile, "VERIF_WORK=", "VERIF_REPLAY=")
+	// VERIF_HANG_S: the child has no 90 s per-stage watchdog (ev reads the limit from the environment); its only time
+	// limit is the parent's, whose expiry means "inconclusive"
+	cmd.Env = append(os.Environ(), "C10_CHILD_CASE="+caseFile, "C10_CHILD_OUT="+outFile, "VERIF_WORK=", "VERIF_REPLAY=", "VERIF_HANG_S=864000")
 	var stderr bytes.Buffer
 	cmd.Stdout = &stderr
 	cmd.Stderr = &stderr
@@ -1099,6 +1109,16 @@ func runInChild(c *Case, timeout time.Duration) childResult {
 	if !res.finished {
 		s := stderr.String()
 		res.overflow = strings.Contains(s, "stack overflow") || strings.Contains(s, "goroutine stack exceeds")
+		goReport := strings.Contains(s, "fatal error:") || strings.Contains(s, "panic:") || res.overflow
+		if ws, ok := cmd.ProcessState.Sys().(syscall.WaitStatus); ok && !res.timedOut {
+			if ws.Signaled() && ws.Signal() == syscall.SIGKILL && !goReport {
+				res.resources = true
+				res.head = "killed by SIGKILL without a Go crash report (out-of-memory killer)"
+			}
+		}
+		if strings.Contains(s, "out of memory") || strings.Contains(s, "cannot allocate memory") {
+			res.resources = true
+		}
 		if i := strings.Index(s, "runtime: goroutine stack exceeds"); i >= 0 {
 			s = s[i:]
 		} else if i := strings.Index(s, "fatal error:"); i >= 0 {
@@ -1119,7 +1139,16 @@ func runInChild(c *Case, timeout time.Duration) childResult {
 				break
 			}
 		}
-		res.head = strings.Join(fr, " | ")
+		if len(fr) > 0 || res.head == "" {
+			res.head = strings.Join(fr, " | ")
+		}
+		if res.head == "" {
+			tail := strings.TrimSpace(stderr.String())
+			if len(tail) > 300 {
+				tail = tail[len(tail)-300:]
+			}
+			res.head = fmt.Sprintf("exit code %d, no Go crash report; last output: %q", cmd.ProcessState.ExitCode(), tail)
+		}
 	}
 	return res
 }
@@ -1434,6 +1463,9 @@ func TestLadder(t *testing.T) {
 				case res.timedOut:
 					ev.R.Label("ladder:child-timeout-inconclusive", 1)
 					ev.R.Note(fmt.Sprintf("ladder %s depth %d via %s: no result within %v at stage %s (inconclusive, not a violation)", k.name, depth, c.Entry, childTimeout, res.lastStage))
+				case res.resources:
+					ev.R.Label("ladder:child-out-of-memory-inconclusive", 1)
+					ev.R.Note(fmt.Sprintf("ladder %s depth %d via %s: child ran out of memory / was killed in stage %s (%s) - inconclusive, memory exhaustion is not judged", k.name, depth, c.Entry, res.lastStage, res.head))
 				default:
 					ev.R.Case(ir.Hash([]any{c.Entry, k.name, depth}), true, "layer:ladder", depthLabel(depth), "construct:"+k.name, "ladder:child-died")
 					msg := fmt.Sprintf("%s on construct %s at depth %d (%d bytes): process died in stage %s: %s", c.Entry, k.name, depth, len(doc), res.lastStage, res.head)
@@ -1508,8 +1540,8 @@ func TestKnown(t *testing.T) {
 			ev.R.Violation(sub, c, detail)
 			t.Errorf("C10/%s: %s", sub, detail)
 		}
-	case res.timedOut:
-		ev.R.Note("recursion reproducer: no result within the child time limit (inconclusive)")
+	case res.timedOut || res.resources:
+		ev.R.Note("recursion reproducer: no result (time limit or out of memory) - inconclusive: " + res.head)
 	default:
 		msg := fmt.Sprintf("Policy.UnmarshalCedar on 400 000 nested '(' (400 KB): process died in stage %s: %s", res.lastStage, res.head)
 		if ev.KnownOpen("C10", kRecursion) && res.overflow {
@@ -1649,6 +1681,8 @@ func TestReplay(t *testing.T) {
 		case res.timedOut:
 			ev.R.Violation("hang:"+c.Entry+":"+res.lastStage, c, "no result within "+childTimeout.String())
 			t.Errorf("C10 replay: %s did not finish (stage %s)", c.Entry, res.lastStage)
+		case res.resources:
+			t.Logf("C10 replay: %s ran out of memory in stage %s (%s) - not judged", c.Entry, res.lastStage, res.head)
 		default:
 			msg := fmt.Sprintf("%s: process died in stage %s: %s", c.Entry, res.lastStage, res.head)
 			ev.R.Violation("crash:"+c.Entry+":"+res.lastStage, c, msg)
